@@ -451,6 +451,24 @@ pub proof fn L_resigned_source_row_was_authorised(ra: RoomAuthorisations, q0: De
     assert(edge_delete_ok(ra, q0.edges@[k], t));
 }
 
+//@ obligation L_reference_removal_accepted_locally_is_accepted_by_peers props C12 : the source row that a locally accepted reference removal re-dates and re-signs is accepted by validate_node on every peer holding the same room definitions and the previous version of the row (same room, date = the date signed for the row, author = caller, same entity; the content, hence the size, is that of the stored row): before fix dbeabeb the local path accepted removals whose re-signed row every peer refused
+pub proof fn L_reference_removal_accepted_locally_is_accepted_by_peers(ra: RoomAuthorisations, peer: RoomAuthorisations, q0: DeletionQuery, q1: DeletionQuery, t: i64, k: int, row: Node, name: Seq<char>, date: i64, n: NodeToInsert)
+    requires
+        deletion_ok(ra, q0, q1, t),
+        0 <= k < q0.edges@.len(), edge_of_row(q0.edges@[k], row, name, date), row.room_id is Some,
+        peer.rooms@ == ra.rooms@, peer.max_node_size == ra.max_node_size,        // honest peer, same room definitions and limit
+        n.node is Some,                                                          // the peer receives the row as re-signed: same room, re-dated, authored by the caller
+        n.node->Some_0.room_id == row.room_id, n.node->Some_0.mdate == date, n.node->Some_0.verifying_key@ == ra.signing_key.spec_vk(),
+        bincode::spec_size(n.node->Some_0) is Some && bincode::spec_size(n.node->Some_0)->Some_0 <= peer.max_node_size,   // content unchanged: the size the stored version had
+        n.entity_name is Some, n.entity_name->Some_0@ == name,
+        n.old_verifying_key == Some(row.verifying_key), n.old_room_id == row.room_id,   // the peer holds the previous version
+    ensures
+        spec_validate_node(peer, n),
+{
+    assert(edge_delete_ok(ra, q0.edges@[k], t));
+    assert(n.node->Some_0.verifying_key@ =~= vk_of(ra)@);
+}
+
 // ================================================================= the shell around the local verdicts and the hand-over to the writer (C01)
 pub struct MutationParser { x: u8 }
 //@ extract src/database/mutation_query.rs :: struct MutationQuery
